@@ -13,7 +13,9 @@ EXPLANATION = ("Lockset analysis of the live-listener list `StreamsManagerBase::
                "and the payload slot stays occupied forever (listed known findings); (R17.3) a dropped listener's queue is emptied on every path strictly BEFORE its id "
                "is released, so a listener created concurrently on the recycled id cannot have its events eaten by the old drain; (R17.4) fan-out loops read each "
                "entry from the live list when they use it -- a by-value snapshot of the array taken before the loop keeps dispatching to ids that were released "
-               "meanwhile; (R17.5) the list is private to StreamsManagerBase and handed out only as a shared reference.")
+               "meanwhile; (R17.5) the list is private to StreamsManagerBase and handed out only as a shared reference; (R17.6) a queue-full retry inside the fan-out looks the "
+               "listener's queue up again from the live entry on every attempt (or runs under streams_lock): a handle taken before the wait feeds a dead queue once the listener "
+               "waited on was dropped (genuine on arc Atomic / arc Crossbeam today: listed findings, reproduced).")
 ASSUMPTIONS = ["the race itself (a sender observing the list half-rewritten) is reported as findings, not proved absent: no small fix exists (senders would need the lock or an RCU-style list)",
                "per-listener ring correctness under concurrency is C01/C02 territory"]
 
@@ -160,6 +162,31 @@ def check(ctx):
             e = show(dg.expr(c["args"][0]))
             if "used_streams" not in e and "get_unchecked" not in e: okp = okp and True
         ctx.ob("R17.4", f"{k}|publishes-inside-the-loop", okp, body.loc(pubs[0][0]) if pubs else f"{body.f['file']}:{body.f['line']}", f"{len(pubs)} publication site(s) inside the fan-out loop", nontrivial=False)
+    # ------------------------------------------------------------------ R17.6 a queue-full retry re-derives the queue from the live entry
+    # the channels that wait on a full listener queue (retry loop inside the fan-out loop): the listener they wait on may be dropped meanwhile -- its queue is
+    # drained, its id released and the list compacted.  A retry that still publishes through the handle taken before the wait feeds the dead queue and the
+    # listener that slid into the position misses the event (D10, reproduced: triage/c17b_stale_handle_demo.rs).
+    n6 = 0
+    for name in ("multi.arc.atomic", "multi.arc.full_sync", "multi.arc.crossbeam"):
+        k = f"{R.CHANNELS[name]} as {PROD}::send_derived"
+        body = Body(fx.fn(k)); dg = D.Dag(body)
+        an = eng.analyse(k)
+        pubs = [(b, c) for (b, c) in body.calls if c.get("fname") in ("publish_movable", "try_send", "send", "publish")]
+        derive = [b for (b, c) in body.calls if c.get("fname") in ("get_unchecked", "get_unchecked_mut", "index", "get") and c["args"]
+                  and any(x in str(ts.access_path(body, c["args"][0]) or show(dg.expr(c["args"][0]))) for x in ("channels", "senders", "queues", "dispatcher_managers"))]
+        for (pb, pc) in pubs:
+            inner = [h for h, bl in body.loops.items() if pb in bl]
+            if len(inner) < 2: continue          # not inside a retry loop nested in the fan-out loop
+            h_in = min(inner, key=lambda h: len(body.loops[h]))
+            n6 += 1
+            fresh = any(d_ in body.loops[h_in] and body.dominates(d_, pb) for d_ in derive)
+            locked = an.must_hold(pb, lockp) and not an.undecided
+            ctx.ob("R17.6", f"{k}|retry-rederives-the-queue", fresh or locked, body.loc(pb),
+                   "every attempt of the queue-full retry loop looks the listener's queue up again from the live entry" if fresh else
+                   ("the retry runs with streams_lock held" if locked else
+                    "the queue handle used by the retry loop was taken before the loop: when the listener being waited on is dropped during the wait (queue drained, list compacted) "
+                    "the retry publishes into the dead queue and the surviving listener now at that position misses the event"))
+    ctx.floor("R17.6", 3)
     # ------------------------------------------------------------------ R17.5 list is private
     adt = fx.adts[SM]
     fld = [f for f in adt["variants"][0]["fields"] if f["name"] == "used_streams"][0]
